@@ -103,7 +103,8 @@ def check_program(item):
     if want_c and not res["problems"]:
         # collapse-transition-ranges only exists in the C: decide it by the exhaustive all-256-bytes single-step comparison (C06's engine) at that flag
         from checks import c06
-        for o in (["-O0", "-fcollapse-transition-ranges"], ["-O2", "--collapsed-range-length", "1"], ["-O2", "--collapsed-range-length", "2"]):
+        for o in (["-O0", "-fcollapse-transition-ranges"], ["-O2", "--collapsed-range-length", "1"], ["-O2", "--collapsed-range-length", "2"],
+                  ["-O0", "-fuse-delete-for-empty-string", "-fallocate-str-space-dynamic-on-demand", "-fdelete-string-free-memory"]):
             r6 = c06.check_program(dict(src=src, argv=argv + o, label=label))
             res["creplay"] += r6.get("steps", 0)
             for p in r6.get("problems", [])[:1]:
